@@ -102,6 +102,26 @@ def container_ops(rng, dump, parent_kind, child_kind, list_key, back_key, names,
     return {"t": tSet, pk: P, "xs": xs}
 
 
+def followup(rng, D, last):
+    """directed continuation of an interesting accepted call: after re-pointing an instance, take one of its
+    connected outer pins off its wire in bulk through a PROXY pin (or disconnect / reconnect it singly)"""
+    if not last:
+        return None
+    op, out = last
+    if out != "ok" or op.get("t") != "setRef" or op.get("d") is None or rng.random() > 0.5:
+        return None
+    i = op["i"]
+    if i >= len(D["instance"]):
+        return None
+    wired = [(q, w) for (q, w) in D["instance"][i]["pins"] if w is not None]
+    if not wired:
+        return None
+    q, w = rng.choice(wired)
+    if rng.random() < 0.7:
+        return {"t": "disconnectFrom", "w": w, "rs": [["o", i, q]], "asset": rng.random() < 0.5, "proxy": True}
+    return {"t": "disconnect", "w": w, "r": ["o", i, q], "proxy": True}
+
+
 def gen_compound(rng, D, veto):
     """compound constructors that create several pins / wires in one call; `veto`: a guard listener is present and
     may refuse the k-th pin / wire add (k >= 0)"""
